@@ -459,6 +459,18 @@ pub fn run(tier: &str) -> Result<Report, String> {
             deep.push(shape.replace("{n}", n));
         }
     }
+    // the same sub-formula TEXT twice at the same quantifier depth, well-scoped the first time and ill-scoped the second (a free
+    // variable, a free jump target, a variable quantified again inside its own scope) - and the mirrored, equally invalid orders
+    for q in ["!", "3", "V"] {
+        for body in ["AX {x}", "@{x}: EF a", "{x} & a", "EF (a | {x})"] {
+            for op in ["&", "|", "EU"] {
+                deep.push(format!("({q}{{x}}: {body}) {op} ({q}{{y}}: {body})"));
+                deep.push(format!("({q}{{y}}: {body}) {op} ({q}{{x}}: {body})"));
+                deep.push(format!("({q}{{y}}: ({q}{{x}}: {body})) {op} ({q}{{x}}: ({q}{{x}}: {body}))"));
+                deep.push(format!("({q}{{x}}: {body}) {op} ({q}{{x}}: {body})"));
+            }
+        }
+    }
     // wild-card propositions needed inside a restricted scope and again outside it (valid inputs: labels p and d are present)
     deep.extend(crate::formulas::wildcard_count_texts());
     for s in &deep {
